@@ -2,6 +2,7 @@ import Wayfind.Proofs.Reachable
 import Wayfind.Proofs.FindDelete
 import Wayfind.Proofs.InsShp
 import Wayfind.Proofs.Registry11
+import Wayfind.Proofs.Unique5
 
 /-! # C10 — failed calls change nothing; insert followed by delete is the identity
 `C10_insert_error_atomic`: a failing `insert` leaves the router state untouched (in the model a failing insert returns
@@ -9,9 +10,10 @@ no state at all; the step function keeps the old one). `C10_delete_validation_at
 after all three validation steps (parse, mismatch scan, not-found scan) have passed. `C10_roundtrip_lookup`: inserting
 a new route and deleting it again restores every lookup of the tree (through radix split and merge) and hands back
 what was inserted.
-Status: proved for every search result, for every history.
-Restoring the *printed* tree needs canonical-tree uniqueness and is tied by the FUN oracle (same live set ⇒ same
-drawing) over detours and failing calls in every history; clones are the subject of C16. -/
+Status: **proved for every search result and for the printed tree, for every history.** A failing call returns the
+old state unchanged (so drawing and searches are trivially the same); the round trip restores every lookup
+(`insert_delete_roundtrip_find`), and since both trees are canonical (`reachable_canon`) the drawing is restored too
+(`C10_insert_then_delete_restores_tree`, through `Node.skel_unique`). Clones are the subject of C16. -/
 
 theorem C10_insert_error_atomic (r : Router) (t : Bytes) (d : Nat) (e : InsertErr) (h : r.insert t d = .error e) :
     r.step (.insert t d) = r := by
@@ -62,3 +64,24 @@ theorem C10_insert_then_delete_is_identity (env : Env) (r r' : Router) (L : List
     (hi : r.insert t d = .ok r') (ts : List (Bytes × List Part)) (hp : parseTemplates t = .ok ts) :
     (r'.delete t).1 = .ok d ∧ ∀ path, (r'.delete t).2.search env path = r.search env path :=
   insert_delete_roundtrip env h hi ts hp
+
+/-- a failing call leaves the printed tree as it was -/
+theorem C10_failed_call_keeps_tree (r : Router) (L : List LiveT) (h : Live r L) (c : Call)
+    (hfail : match c with
+      | .insert t d => ∃ e, r.insert t d = .error e
+      | .delete t => ∃ e, (r.delete t).1 = .error e
+      | .constraint n ty => ∃ e, r.constraint n ty = .error e) :
+    (r.step c).display = r.display := by
+  cases c with
+  | insert t d => obtain ⟨e, he⟩ := hfail; simp [Router.step, he]
+  | delete t =>
+    obtain ⟨e, he⟩ := hfail
+    simp only [Router.step]
+    rw [C10_delete_error_atomic r L h t e he]
+  | constraint n ty => obtain ⟨e, he⟩ := hfail; simp [Router.step, he]
+
+/-- **Printing half of the round trip.** After a successful `insert(t, d)`, `delete(t)` restores the printed tree. -/
+theorem C10_insert_then_delete_restores_tree (r r' : Router) (L : List LiveT) (h : Live r L) (t : Bytes) (d : Nat)
+    (hi : r.insert t d = .ok r') (ts : List (Bytes × List Part)) (hp : parseTemplates t = .ok ts) :
+    (r'.delete t).2.display = r.display :=
+  insert_delete_roundtrip_display h hi ts hp
